@@ -110,16 +110,52 @@ func genSelect(ctx *common.Ctx, maxItems int) *Prog {
 	r := ctx.Rng
 	per := 1 + r.Intn(maxItems)
 	p := &Prog{Shape: "select", Caps: []int{common.Pick(r, []int{0, 1, 2}), common.Pick(r, []int{0, 1, 4})}}
-	np := 2 + r.Intn(2)
+	nch := 2
+	if r.Chance(35) {
+		nch = 3
+		p.Caps = append(p.Caps, r.Intn(3))
+	}
+	np := nch + r.Intn(2)
 	for i := 0; i < np; i++ {
-		c := i % 2
+		c := i % nch
 		p.Code = append(p.Code, repeatOp(per, func(k int) Op { return Push(c, int64(i*1000+k)) }))
 	}
 	nc := 1 + r.Intn(2)
 	for _, n := range split(r, np*per, nc) {
-		p.Code = append(p.Code, repeatOp(n, func(int) Op { return Select(0, 1) }))
+		p.Code = append(p.Code, repeatOp(n, func(int) Op { return selectClauses(r, nch) }))
 	}
 	return finish(ctx, p)
+}
+
+// selectClauses: a select over channels 0..nch-1 in a random order, with timeout clauses (that never fire) at
+// random positions among them: none (30%), one or two (the static path of select.go), three (its reflect path)
+func selectClauses(r *common.Rng, nch int) Op {
+	cs := make([]int, nch)
+	for c := range cs {
+		cs[c] = c
+	}
+	for k := len(cs) - 1; k > 0; k-- {
+		j := r.Intn(k + 1)
+		cs[k], cs[j] = cs[j], cs[k]
+	}
+	nt := 0
+	switch x := r.Intn(100); {
+	case x < 30:
+	case x < 65:
+		nt = 1
+	case x < 92:
+		nt = 2
+	default:
+		nt = 3
+	}
+	for t := 0; t < nt; t++ {
+		pos := r.Intn(len(cs) + 1)
+		if t == 0 && r.Chance(50) {
+			pos = 0 // the "timeout first" way of writing a guarded receive
+		}
+		cs = append(cs[:pos], append([]int{-1}, cs[pos:]...)...)
+	}
+	return Select(cs...)
 }
 
 // routines increment shared cells inside with-mutex-lock; the cell is a global, a slot of a synchronized
@@ -320,11 +356,7 @@ func genSoup(ctx *common.Ctx) *Prog {
 			case x < 47:
 				out = append(out, Pop(r.Intn(nch)))
 			case x < 52:
-				if nch > 1 {
-					out = append(out, Select(0, 1))
-				} else {
-					out = append(out, Select(0))
-				}
+				out = append(out, selectClauses(r, nch))
 			case x < 55:
 				out = append(out, Range(r.Intn(nch)))
 			case x < 60:
